@@ -352,12 +352,13 @@ def segCrossing (A B O D : V2 Rat) : Option SegCr :=
   let ao := A.sub O
   some ⟨cross2 ao E / cr, cross2 ao D / cr, sqr cr⟩
 
-def polylineOracle (vs : List (V2 Rat)) (O D : V2 Rat) (max : Option Rat) (out : Out2) : String :=
-  let segs := vs.zip (vs.drop 1)
+/-- brute force over a set of 2-D segments (`exactData`: the segments are the exact ones the code works with and lie on the
+lattice; exact ties are then judged without tolerance for axis-parallel rays with power-of-two components) -/
+def segsOracle (segs : List (V2 Rat × V2 Rat)) (exactData : Bool) (O D : V2 Rat) (max : Option Rat) (out : Out2) : String :=
   if D.normSq ≤ 1 / 1000000000000 then "skip tiny-dir" else
   if segs.any (fun (a, b) => decide ((b.sub a).normSq ≤ 1 / 1000000000000)) then "skip tiny-segment" else
-  let scale := 1 + absV2 O + (vs.foldl (fun acc p => acc + absV2 p) 0)
-  let exact : Bool := vs.all (onLattice2 64) && onLattice2 1024 O && onLattice2 1024 D &&
+  let scale := 1 + absV2 O + (segs.foldl (fun acc (a, b) => acc + absV2 a + absV2 b) 0)
+  let exact : Bool := exactData && onLattice2 1024 O && onLattice2 1024 D &&
     ((D.x = 0 && zeroOrPow2 D.y) || (D.y = 0 && zeroOrPow2 D.x))
   -- clearly crossed: transversal (sin² > 1e-5: above the absolute-threshold regime of the parallelism test), crossing point
   -- at least `tolB` inside the segment, origin not on the segment's line
@@ -407,6 +408,26 @@ def polylineOracle (vs : List (V2 Rat)) (O D : V2 Rat) (max : Option Rat) (out :
     else if n.dot D > 0 ∧ sqr (n.dot D) > sqr (1 / 1000000) * D.normSq then "fail normal-not-facing-ray"
     else if on.any (fun (a, b) => let E := b.sub a; decide (sqr (n.dot E) ≤ sqr (1 / 1000000) * E.normSq)) then "pass"
     else "fail normal-not-perpendicular-to-the-hit-segment"
+
+def polylineOracle (vs : List (V2 Rat)) (O D : V2 Rat) (max : Option Rat) (out : Out2) : String :=
+  segsOracle (vs.zip (vs.drop 1)) (vs.all (onLattice2 64)) O D max out
+
+/-- 2-D heightfield on the wire: `n h[n] sx sy nrem (i)*nrem` -/
+structure Hf2Args where
+  hs : Array Float
+  sc : V2 Float
+  removed : List Nat
+def phf2 : P Hf2Args := do
+  let n ← pnat; let hs ← pcount pf n; let sc ← pv2; let nr ← pnat; let rm ← pcount pnat nr
+  pure ⟨hs.toArray, sc, rm⟩
+/-- the segments of the 2-D heightfield from its documentation: vertex `i` is `((−1/2 + i/(n−1))·sx, h_i·sy)`, segment `i`
+joins the vertices `i` and `i+1` unless it has been removed -/
+def Hf2Args.segments (h : Hf2Args) : List (V2 Rat × V2 Rat) :=
+  let n := h.hs.size
+  if n < 2 then [] else
+  let S := q2 h.sc
+  let vtx := fun (i : Nat) => (⟨(-(1 / 2 : Rat) + (i : Rat) / ((n - 1 : Nat) : Rat)) * S.x, q (h.hs.getD i 0) * S.y⟩ : V2 Rat)
+  (List.range (n - 1)).filterMap fun i => if h.removed.contains i then none else some (vtx i, vtx (i + 1))
 
 /-! ### handlers -/
 def isIdentQuat (m : Iso3 Rat) : Bool := m.qi = 0 && m.qj = 0 && m.qk = 0 && (m.qw = 1 || m.qw = -1)
@@ -469,6 +490,13 @@ def handlerComposite (fn : String) : Option Handler :=
       model := fun _ => some "composite-not-modelled"
       oracle := fun a o => withArgs (do let vs ← ppolyline2; let ra ← pray2; pure (vs, ra)) a fun (vs, ra) =>
         polylineOracle (vs.map q2) (q2 ra.o) (q2 ra.d) ra.maxQ (parseOut2 o) }
+  -- 2-D heightfield (linear cell walk): not modelled; exact brute force over its segments (no exact-tie rule: the
+  -- heightfield computes its vertices in floating point)
+  | "rc_hf2" => some {
+      model := fun _ => some "composite-not-modelled"
+      oracle := fun a o => withArgs (do let h ← phf2; let ra ← pray2; pure (h, ra)) a fun (h, ra) =>
+        if h.sc.x ≤ 0 || h.sc.y ≤ 0 then "skip nonpositive-scale" else
+        segsOracle h.segments false (q2 ra.o) (q2 ra.d) ra.maxQ (parseOut2 o) }
   | _ => none
 
 end C04
